@@ -77,7 +77,23 @@ pub fn sorted_join(mut v: Vec<String>) -> String {
 pub fn run_case(p: &dyn DetectProp, cx: &mut Ctx, case: &Case) {
     cx.rep.evaluations += 1;
     cx.rep.count(&format!("gen:{}", case.tag.split(':').next().unwrap_or("")));
+    // the case in flight is on disk while the library runs: a process abort leaves it behind as replay
+    let inflight = format!("{}/inflight-{}.json", cx.rep.replay_dir, cx.rep.seed);
+    let _ = std::fs::write(
+        &inflight,
+        format!(
+            "{{\"property\":{},\"kind\":\"oracle\",\"class\":\"{}:process-aborted-inside-the-library\",\"seed\":{},\"bytes_hex\":{},\"bytes_len\":{},\"settings\":{},\"detail\":\"in flight\",\"extra\":{}}}\n",
+            jstr(p.id()),
+            p.id(),
+            cx.rep.seed,
+            jstr(&if case.bytes.len() <= 200_000 { hex(&case.bytes) } else { format!("sha-omitted-len-{}", case.bytes.len()) }),
+            case.bytes.len(),
+            case.sett.json(),
+            jstr(&case.tag)
+        ),
+    );
     let raw = real_detect_raw(&case.bytes, &case.sett);
+    let _ = std::fs::remove_file(&inflight);
     let real = outcome_of(&raw, &case.sett);
     match &real {
         Outcome::Ok(v) => {
